@@ -52,19 +52,23 @@ func Accept(s *State, b Bus, req Request, q Quirks) (accepted bool, in Info) {
 		s.IFF2 = s.IFF1
 		s.IFF1 = false
 		in.Class = "accept NMI"
+		in.RLowFree = true
 		return true, in
 	}
 	if !s.IFF1 {
 		return false, in
 	}
+	iff2 := s.IFF2
 	s.IFF1, s.IFF2 = false, false
 	switch s.IM {
 	case 1:
 		in.Class = "accept IM1"
+		in.RLowFree = true
 		m.push(s.PC)
 		s.PC = 0x0038
 	case 2:
 		in.Class = "accept IM2"
+		in.RLowFree = true
 		m.push(s.PC)
 		var v uint8
 		if len(req.Data) > 0 {
@@ -75,6 +79,9 @@ func Accept(s *State, b Bus, req Request, q Quirks) (accepted bool, in Info) {
 		in.Class = "accept IM0"
 		r0 := s.R
 		if q.Im0ExecutesAtPC {
+			// the finding includes the order: the instruction runs with the flip-flops still set
+			// (visible when the wrapped overlay lets a program instruction such as LD A,I run instead)
+			s.IFF1, s.IFF2 = true, iff2
 			m.b = &overlay{base: b, start: s.PC, end: s.PC + uint16(len(req.Data)-1), data: req.Data}
 			m.exec()
 		} else {
